@@ -458,6 +458,13 @@ def generate_facts(repo):
     F('SCAN_CHECKS_RECORD_END', lambda: (before(rc, '+= header.meta_size()', '> self.file.size()', 'read_current_record') and
       before(rc, '> self.file.size()', 'if read_data', 'read_current_record') and 'saturating_add(header.data_size())' in rc), 'src/blob/core.rs',
       'blob scan: after the meta size is added the whole record must end inside the file, checked before the data is (or is not) read')
+    F('SCAN_MAPS_EOF_TO_BINCODE', lambda: (rc.count('into_bincode_if_unexpected_eof') >= 2), 'src/blob/core.rs',
+      'blob scan: a short read of a record header or of record data is reported as the Bincode error class (= quarantine), not as a plain I/O error (= init fails)')
+    ssc = Lazy(lambda: body_with(core, 'should_save_corrupted_blob', ['ErrorKind']))
+    F('QUARANTINE_RULE', lambda: (re.search(r'ErrorKind::Bincode\(_\)\s*=>\s*true', str(ssc)) is not None and
+                                  re.search(r'!matches!\(\s*kind\s*,\s*ValidationErrorKind::BlobVersion\s*\)', str(ssc)) is not None and
+                                  re.search(r'_\s*=>\s*false', str(ssc)) is not None), 'src/storage/core.rs',
+      'read_blobs: a blob that fails with a Bincode error or a validation error other than the blob version is moved to the corrupted directory; a version error makes init fail (Blob/Scan.v dispose)')
     bp = S('src/blob/index/bptree/core.rs')
     v = Lazy(lambda: body_with(bp, 'validate', ['blob_size']))
     F('INDEX_BLOB_SIZE_MUST_BE_EQUAL', lambda: (re.search(r'self\.header\.blob_size\(\)\s*!=\s*blob_size', str(v)) is not None), 'src/blob/index/bptree/core.rs',
